@@ -165,7 +165,9 @@ theorem qrLoop_spec (m : ℕ) (hm : 0 < m) :
     ∀ (as qs : List (List ℝ)) (D : List (ℕ → ℝ)) (Q R : List (List ℝ)),
       (∀ a ∈ as, a.length = m) → List.Forall₂ (Pair m D) as qs →
       qrLoop as qs = some (Q, R) →
-      (∀ q ∈ Q, q.length = m ∧ ∀ d ∈ D, ip m (vec q) d = 0) ∧ QtA m Q R as
+      (∀ q ∈ Q, q.length = m ∧ ∀ d ∈ D, ip m (vec q) d = 0) ∧ QtA m Q R as ∧
+      (∀ v : ℕ → ℝ, (∀ d ∈ D, ip m v d = 0) → (∀ q ∈ Q, ip m v (vec q) = 0) →
+        ∀ a ∈ as, ip m v (vec a) = 0)
   | [], qs, D, Q, R, _, _, h => by
     simp only [qrLoop, Option.some.injEq, Prod.mk.injEq] at h
     obtain ⟨rfl, rfl⟩ := h
@@ -226,8 +228,8 @@ theorem qrLoop_spec (m : ℕ) (hm : 0 < m) :
           have hvD : ∀ d ∈ D, ip m v d = 0 := fun d hd => hv d (by simp [hd])
           have hvk0 : ip m v (vec qk) = 0 := hv _ (by simp)
           rw [ip_congr_right v (fun i _ => hva i), ip_sub_smul_right, hvk0, hq'v v hvD]; ring
-      obtain ⟨hQ', hQtA'⟩ := qrLoop_spec m hm as _ (vec qk :: D) Q' R' hlen' hp' hrec
-      refine ⟨?_, ?_, ?_, hQtA'⟩
+      obtain ⟨hQ', hQtA', hC4'⟩ := qrLoop_spec m hm as _ (vec qk :: D) Q' R' hlen' hp' hrec
+      refine ⟨?_, ⟨?_, ?_, hQtA'⟩, ?_⟩
       · intro q hq
         rcases List.mem_cons.mp hq with rfl | hq
         · exact ⟨hqklen, hkD⟩
@@ -245,6 +247,17 @@ theorem qrLoop_spec (m : ℕ) (hm : 0 < m) :
         have : ip m (vec q') (vec qt) = ip m (vec q') (vec qk) * rkk := by
           rw [hipk]; field_simp
         rw [this, hq'k, zero_mul]
+      · intro v hvD hvQ a' ha'
+        rcases List.mem_cons.mp ha' with rfl | ha'
+        · rw [hqtv v hvD]
+          have : ip m v (vec qt) = ip m v (vec qk) * rkk := by
+            rw [hipk]; field_simp
+          rw [this, hvQ qk (by simp), zero_mul]
+        · refine hC4' v ?_ (fun q hq => hvQ q (by simp [hq])) a' ha'
+          intro d hd
+          rcases List.mem_cons.mp hd with rfl | hd
+          · exact hvQ qk (by simp)
+          · exact hvD d hd
 
 /-! ### consistent right-hand sides -/
 
@@ -575,7 +588,7 @@ theorem lsq_consistent (n : ℕ) (rows : List (List ℝ)) (b z x : List ℝ)
       rw [List.forall₂_same]
       intro a ha
       exact ⟨hlen a ha, by simp, fun _ _ => rfl⟩
-    obtain ⟨hQ, hQtA⟩ := qrLoop_spec m hm _ _ [] Q R hlen hpair hq
+    obtain ⟨hQ, hQtA, _⟩ := qrLoop_spec m hm _ _ [] Q R hlen hpair hq
     have hcl : (columns n rows).length = n := by simp [columns]
     have hw : ∀ i, i < m → vec b i = lincomb (columns n rows) z i := by
       intro i hi
